@@ -244,7 +244,7 @@ ROUND6 = {
     "C03": " The real server (started through run_server) holds 27 services of all schemes at once and sees only bytes; every service is searched three times in different orders.",
     "C04": " The index is scanned again after it has been searched; posting lists are also handed over as tuple, list subclass, one-shot iterator, generator, map object, keys view.",
     "C06": " Every third sorted-table case runs with clustered labels (forty pseudo-random values share their leading four bytes).",
-    "C09": " A wait without result or closure is decided logically (never served) when the server still has a closed connection registered.",
+    "C09": " Workflows in which the server's cleanup delays are held back and end only when the client waits or after later steps. A wait without result or closure is decided logically (never served) when the server still has a closed connection registered.",
     "C10": " Symbol cx: a configuration that cannot be stored as JSON, in every short sequence; configurations carry non-ASCII text; every fifth shard runs with an ASCII default text encoding.",
     "C14": " Every shard runs under the plain interpreter and under python -O.",
     "C15": " Every shard in both interpreter modes; one PRP / cipher object is asked for 2^16+500 distinct inputs, then the first ones again.",
@@ -256,13 +256,13 @@ ROUND6 = {
 
 
 ROUND7 = {
-    "C01": " One scheme object builds index after index of a changing collection, each dropped before the next (object lifetime, id() reuse), with one key and with a new key object per generation.",
+    "C01": " One scheme object builds index after index of a changing collection, each dropped before the next (object lifetime, id() reuse), with one key and with a new key object per generation. TokenGen / Search interrupted by a failpoint and repeated.",
     "C02": " The same dropped-index generations judged on absent keywords.",
     "C03": " Dropped-index generations through tokens; 900 small services, one upload and one search each, on the real server.",
     "C04": " The second build is also made by a copy (deepcopy / pickle round trip) of the scheme object that made the first.",
     "C05": " A PiPtr family with more than 256 array cells (two-byte pointers).",
     "C07": " The caller extends every answer it is handed; dropped-index generations.",
-    "C08": " An accepted default configuration on one long-lived scheme object through dropped-index generations.",
+    "C08": " An accepted default configuration on one long-lived scheme object through dropped-index generations; TokenGen / Search interrupted by a failpoint (KeyboardInterrupt at a statement inside the library) and repeated.",
     "C11": " A last encrypt probe with a database that holds no posting: refused without effect or accepted with its flag.",
     "C12": " A full garbage collection while connections are open and staged collections before the probe in a sixth of the schedules.",
     "C13": " After a crash in any step but create-service a client that no longer knows its service has NOT recovered.",
